@@ -25,12 +25,14 @@ def lonLoop : Nat → Rat → Rat
 def fuelLat (lat : Rat) : Nat := ((absR lat + 90) / 180).floor.toNat + 1
 def fuelLon (lon : Rat) : Nat := ((absR lon + 180) / 360).floor.toNat + 1
 
-/-- `Coordinate(lon, lat, _bounded=bounded)` ↦ stored `(longitude, latitude)` -/
+/-- `Coordinate(lon, lat, _bounded=bounded)` ↦ stored `(longitude, latitude)`.
+    The `lon == 180 → -180` fold sits inside `if _bounded:` (an un-bounded coordinate — the far end of an
+    edge un-wrapped by `ensure_edge_bounds` — keeps a longitude of 180). -/
 def normalize (bounded : Bool) (lon lat : Rat) : Rat × Rat :=
-  let (lon1, lat1) := if bounded then
-      let r := latLoop (fuelLat lat) lon lat
-      (lonLoop (fuelLon r.1) r.1, r.2)
-    else (lon, lat)
-  (if lon1 = 180 then -180 else lon1, lat1)
+  if bounded then
+    let r := latLoop (fuelLat lat) lon lat
+    let lon1 := lonLoop (fuelLon r.1) r.1
+    (if lon1 = 180 then -180 else lon1, r.2)
+  else (lon, lat)
 
 end GV
